@@ -107,6 +107,18 @@ Example C15_hyps_satisfiable :
   /\ store_simple [(1%N, [PLit [76%N]]); (2%N, [PSub [118%N]])] = true.
 Proof. repeat split; vm_compute; auto. Qed.
 
+(* x; steps: { t1: { a } }  : the hypotheses of the step theorem hold with pf = t1, and a layer l is fresh *)
+Example C15_step_hyps_satisfiable :
+  let m := cb empty_map [DKey [[120%N]] None None; DBoards Steps [([116;49]%N, [DKey [[97%N]] None None])]] in
+  (exists pfs pf pm kes,
+      kind_map s_steps m = IMap (pfs ++ [pf]) kes /\ find_f [116;50]%N (pfs ++ [pf]) = None /\ f_comp pf = Some pm)
+  /\ fresh Layers [108%N] m.
+Proof.
+  split.
+  - exists []. eexists. eexists. eexists. vm_compute. repeat split; reflexivity.
+  - vm_compute. exact I.
+Qed.
+
 Print Assumptions C15_scenario_is_base_plus_own.
 Print Assumptions C15_scenario_is_flat_program.
 Print Assumptions C15_step_includes_previous.
